@@ -3,6 +3,8 @@ package checks
 import (
 	"errors"
 	"fmt"
+	"github.com/verily-src/fhirpath-go/fhirpath/patch"
+	"google.golang.org/protobuf/proto"
 	"strings"
 
 	dtpb "github.com/google/fhir/go/proto/google/fhir/proto/r4/core/datatypes_go_proto"
@@ -113,6 +115,7 @@ type c17COpt struct {
 var c17CAlphabet = []c17COpt{
 	{"f=zero-arg", "f", "ok0"},
 	{"f-again", "f", "ok0"},
+	{"join=custom-function-named-like-an-experimental-one", "join", "ok0"},
 	{"where=builtin-name", "where", "ok0"},
 	{"g=wrong-first-param", "g", "bad"},
 	{"h=wrong-results", "h", "bad"},
@@ -188,7 +191,10 @@ func (fs *c17FnState) option(o c17COpt) fhirpath.CompileOption {
 			return system.Collection{a*100 + b}, nil
 		})
 	case "variadic":
-		return compopts.AddFunction(o.name, func(in system.Collection, xs ...system.Any) (system.Collection, error) { rec("v", in); return fs.ret, nil })
+		return compopts.AddFunction(o.name, func(in system.Collection, xs ...system.Any) (system.Collection, error) {
+			rec("v", in)
+			return fs.ret, nil
+		})
 	case "perm":
 		return compopts.Permissive()
 	case "exp":
@@ -229,6 +235,7 @@ type c17Call struct {
 
 var c17Calls = []c17Call{
 	{"f()", "f", 0, "call", "", nil},
+	{"join()", "join", 0, "call", "", nil},
 	{"Patient.name.f()", "f", 0, "call", "names", nil},
 	{"Patient.name.where(f().exists()).count()", "f", 0, "call-per-item", "", nil},
 	{"f(1)", "f", 1, "compile-error", "", nil},
@@ -256,8 +263,8 @@ func init() {
 	eal := c17EAlphabet()
 	progs := c17Programs()
 	core.Register(&core.Check{
-		ID: "C17",
-		Rule: "all evaluate-option lists of length 0..3 (quick) / 0..4 (thorough), in every order, over an 11-symbol alphabet {valid System value, valid element, valid collection, duplicate name, predefined context, predefined ucum, unsupported Go int, unsupported item first / last inside a collection, nil, OverrideTime} x 18 programs referencing each variable at the root, in a function argument, in where/select criteria and an iif branch, plus %context, %ucum, %unknown, delimited and string-named variables and an instrumented custom function; all compile-option lists of length 0..2 (quick) / 0..3 (thorough) over a 20-symbol alphabet {zero-arg fn, same name again, built-in name, 9 bad signatures (wrong first parameter, wrong results, no parameters, non-function, nil, concrete error pointer / value as second result, three results, first result not a Collection), typed-arg fns, variadic, Permissive, WithExperimentalFuncs, Transform} x 19 call sites; outcomes compared with a reference fold of the contract written in the harness; non-trivial = distinct (option list, program, outcome)",
+		ID:          "C17",
+		Rule:        "all evaluate-option lists of length 0..3 (quick) / 0..4 (thorough), in every order, over an 11-symbol alphabet {valid System value, valid element, valid collection, duplicate name, predefined context, predefined ucum, unsupported Go int, unsupported item first / last inside a collection, nil, OverrideTime} x 18 programs referencing each variable at the root, in a function argument, in where/select criteria and an iif branch, plus %context, %ucum, %unknown, delimited and string-named variables and an instrumented custom function; all compile-option lists of length 0..2 (quick) / 0..3 (thorough) over a 21-symbol alphabet (incl. a custom function named like the experimental join, which WithExperimentalFuncs must not override) {zero-arg fn, same name again, built-in name, 9 bad signatures (wrong first parameter, wrong results, no parameters, non-function, nil, concrete error pointer / value as second result, three results, first result not a Collection), typed-arg fns, variadic, Permissive, WithExperimentalFuncs, Transform} x 19 call sites; the same evaluate-option lists (length <=2) on the four FHIRPatch operations of a path that reads a variable; outcomes compared with a reference fold of the contract written in the harness; non-trivial = distinct (option list, program, outcome)",
 		Assumptions: []string{"the reference fold (left-to-right map pre-seeded with context/ucum; which sentinel errors must be reported) is hand-written from the statement"},
 		Subs: func(tier string) []core.Sub {
 			eLen, cLen := 4, 3
@@ -368,6 +375,113 @@ func init() {
 						}
 					}
 				}},
+				{Name: "patch-options", N: c17SeqCount(len(eal), 2), Note: "the FHIRPatch entry points take the same evaluate options: every option list of length <=2 x {Delete, Replace, Insert, Add} on a path that reads %a; a failing option gives its error and no change, an undefined variable an error and no change, otherwise the outcome of the same operation on the path with the literal in place of the variable", Run: func(i int, r *core.Rec) {
+					seq := c10Seq(i, len(eal))
+					ids := make([]string, len(seq))
+					for j, s := range seq {
+						ids[j] = eal[s].id
+					}
+					listID := "[" + strings.Join(ids, ", ") + "]"
+					type pop struct {
+						name, path string
+						do         func(e *patch.Expression, res fhir.Resource, opts ...fhirpath.EvaluateOption) error
+					}
+					ops := []pop{
+						{"Delete", "Patient.name.where(family = %a).given[0]", func(e *patch.Expression, res fhir.Resource, opts ...fhirpath.EvaluateOption) error {
+							return e.Delete(res, opts...)
+						}},
+						{"Replace", "Patient.name.where(family = %a).given[0]", func(e *patch.Expression, res fhir.Resource, opts ...fhirpath.EvaluateOption) error {
+							return e.Replace(res, fhir.String("Zed"), opts...)
+						}},
+						{"Insert", "Patient.name.where(family = %a).first().given", func(e *patch.Expression, res fhir.Resource, opts ...fhirpath.EvaluateOption) error {
+							return e.Insert(res, fhir.String("Zed"), 0, opts...)
+						}},
+						{"Add", "Patient.name.where(family = %a).first()", func(e *patch.Expression, res fhir.Resource, opts ...fhirpath.EvaluateOption) error {
+							return e.Add(res, "given", fhir.String("Zed"), opts...)
+						}},
+					}
+					for _, op := range ops {
+						st := &c17State{elemA: lib.NameA(), elemB: lib.NameB()}
+						env := map[string]any{}
+						predefined := map[string]bool{"context": true, "ucum": true}
+						wantExisting, wantUnsupported := false, false
+						var opts []fhirpath.EvaluateOption
+						for _, s := range seq {
+							o := eal[s]
+							if o.name == "" {
+								opts = append(opts, evalopts.OverrideTime(lib.PinnedNow))
+								continue
+							}
+							v := o.value(st)
+							opts = append(opts, evalopts.EnvVariable(o.name, v))
+							switch {
+							case !o.valid:
+								wantUnsupported = true
+							case predefined[o.name]:
+								wantExisting = true
+							default:
+								if _, dup := env[o.name]; dup {
+									wantExisting = true
+								} else {
+									env[o.name] = v
+								}
+							}
+						}
+						cls := fmt.Sprintf("existing=%v,unsupported=%v", wantExisting, wantUnsupported)
+						r.State("patch-opts|" + op.name + "|" + cls)
+						w := core.W{"operation": op.name, "path": op.path, "options": listID}
+						pe, perr := patch.Compile(op.path)
+						if perr != nil {
+							r.Fail("patch-options|"+op.name+"|path-does-not-compile", w)
+							continue
+						}
+						res := lib.Patient()
+						before := proto.Clone(res)
+						var err error
+						pi := core.Try(func() { err = op.do(pe, res, opts...) })
+						r.Eval()
+						r.Nontrivial(listID, op.name, fmt.Sprint(err != nil))
+						if pi != nil {
+							r.Fail("patch-options|"+op.name+"|"+pi.Key(), w)
+							continue
+						}
+						w["error"] = fmt.Sprint(err)
+						_, aDefined := env["a"]
+						switch {
+						case wantExisting || wantUnsupported:
+							switch {
+							case err == nil:
+								r.Fail("patch-options|"+op.name+"|"+cls+"|failing-option-ignored", w)
+							case wantExisting && !errors.Is(err, fhirpath.ErrExistingConstant), wantUnsupported && !errors.Is(err, fhirpath.ErrUnsupportedType):
+								r.Fail("patch-options|"+op.name+"|"+cls+"|option-error-not-reported", w)
+							}
+							if !proto.Equal(before, res) {
+								r.Fail("patch-options|"+op.name+"|"+cls+"|resource-changed-although-an-option-failed", w)
+							}
+						case !aDefined:
+							if err == nil {
+								r.Fail("patch-options|"+op.name+"|undefined-variable-ignored", w)
+							}
+							if !proto.Equal(before, res) {
+								r.Fail("patch-options|"+op.name+"|resource-changed-although-the-variable-is-undefined", w)
+							}
+						default:
+							lit := strings.ReplaceAll(op.path, "%a", "'"+string(env["a"].(system.String))+"'")
+							le, lerr := patch.Compile(lit)
+							ref := lib.Patient()
+							var rerr error
+							if lerr == nil {
+								core.Try(func() { rerr = op.do(le, ref) })
+							}
+							r.Eval()
+							if (err == nil) != (rerr == nil) || !proto.Equal(res, ref) {
+								w["with_literal_error"] = fmt.Sprint(rerr)
+								w["literal_path"] = lit
+								r.Fail("patch-options|"+op.name+"|differs-from-the-same-operation-with-the-literal", w)
+							}
+						}
+					}
+				}},
 				{Name: "compile-options", N: nC, Note: fmt.Sprintf("%d option lists x %d call sites", nC, len(c17Calls)), Run: func(i int, r *core.Rec) {
 					seq := c10Seq(i, len(c17CAlphabet))
 					ids := make([]string, len(seq))
@@ -388,7 +502,12 @@ func init() {
 							o := c17CAlphabet[s]
 							copts = append(copts, fs.option(o))
 							switch o.kind {
-							case "perm", "exp":
+							case "perm":
+							case "exp":
+								// the experimental functions are added unless the name is taken (documented: "not overridden")
+								if _, taken := table["join"]; !taken {
+									table["join"] = "experimental"
+								}
 							case "transform":
 								transforms++
 								if transforms > 1 {
@@ -457,6 +576,17 @@ func init() {
 							continue
 						}
 						kind, registered := table[call.fn]
+						if kind == "experimental" {
+							// the library's own experimental function answers the call: the custom one must not have been involved
+							if comp.CompileErr == nil {
+								lib.EvalOpts(comp, in, lib.EnvOpts(nil)...)
+								r.Eval()
+							}
+							if totalCalls() != 0 {
+								r.Fail("compile-options|"+call.src+"|custom-function-called-although-not-registered", w(""))
+							}
+							continue
+						}
 						want := call.want
 						if call.fn != "" && call.want != "builtin" && (!registered || kind == "variadic") {
 							want = "compile-error"
